@@ -285,3 +285,371 @@ def _disposition(project, pinned=None) -> dict:
             else:
                 n_unsched += 1
     return {"leaves": n_leaf, "scheduled": n_sched, "unscheduled": n_unsched, "bad": bad[:5], "scenarios": nsc}
+
+
+# ----------------------------------------------------------------------------- C12 / C13 histories
+
+CLOCKS = [1_750_075_200.0, 1_750_161_600.0, 1_434_542_400.0]  # 2025-06-16 12:00Z, +1 day, 2015-06-17 12:00Z
+TZS = ["UTC", "Europe/Berlin", "America/New_York"]  # offsets that keep the local date equal to the UTC date at 12:00Z
+
+
+def dates_digest(project) -> list:
+    out = []
+    for sc in project.scenarios:
+        scIdx = sc.sequenceNo - 1
+        for t in project.tasks:
+            out.append([scIdx, t.fullId, str(t.get("start", scIdx)), str(t.get("end", scIdx)), bool(t.get("scheduled", scIdx))])
+    return out
+
+
+def _read_tree(root: str) -> dict:
+    import hashlib
+
+    out = {}
+    for dp, dn, fn in os.walk(root):
+        dn.sort()
+        for f in sorted(fn):
+            p = os.path.join(dp, f)
+            with open(p, "rb") as fh:
+                out[os.path.relpath(p, root)] = hashlib.sha256(fh.read()).hexdigest()[:16]
+    return out
+
+
+def _clean_dir(root: str) -> None:
+    import shutil
+
+    for n in os.listdir(root):
+        p = os.path.join(root, n)
+        if os.path.isdir(p):
+            shutil.rmtree(p, ignore_errors=True)
+        else:
+            try:
+                os.unlink(p)
+            except OSError:
+                pass
+
+
+def report_observation(project, k: int, outdir: str) -> list:
+    """Generate report number k of the project the way cli.main does; return everything observable."""
+    import hashlib
+
+    from scriptplan.report import ReportContext
+
+    reports = list(project.reports)
+    if not reports:
+        return ["no-reports"]
+    report = reports[k % len(reports)]
+    _clean_dir(outdir)
+    project.outputDir = outdir
+    ctx = ReportContext(project, report)
+    ctx.push()
+    try:
+        rc = report.generate()
+        js = report.to_json()
+        cs = report.to_csv()
+    finally:
+        ctx.pop()
+    return [
+        report.fullId,
+        rc,
+        hashlib.sha256(json.dumps(js, sort_keys=True, default=str).encode()).hexdigest()[:16],
+        hashlib.sha256(json.dumps(cs, default=str).encode()).hexdigest()[:16],
+        _read_tree(outdir),
+    ]
+
+
+def cli_observation(text: str, workdir: str, outdir: str) -> list:
+    from scriptplan.cli.main import run_scriptplan
+
+    _clean_dir(outdir)
+    path = os.path.join(workdir, "cli_input.tjp")
+    with open(path, "w", encoding="utf-8", newline="") as f:
+        f.write(text)
+    ok, _msg = run_scriptplan(path, outdir)
+    return [bool(ok), _read_tree(outdir)]
+
+
+def _quiet():
+    return contextlib.redirect_stderr(io.StringIO())
+
+
+def c12_baseline(text: str, clock_ts: list, workdir: str) -> dict:
+    """Fresh-interpreter reference for one text: dates, every report, the in-process CLI, step counts."""
+    from .seams import install_datetime_seam
+
+    now = {"t": clock_ts[0]}
+    install_datetime_seam(lambda: now["t"])
+    os.environ["TZ"] = "UTC"
+    import time
+
+    time.tzset()
+    from scriptplan.parser.tjp_parser import ProjectFileParser
+
+    outdir = os.path.join(workdir, "out")
+    os.makedirs(outdir, exist_ok=True)
+    res = {"by_clock": {}}
+    clock = StepClock()
+    clock.install()
+    try:
+        for ts in clock_ts:
+            now["t"] = ts
+            b: dict = {}
+            with _quiet(), contextlib.redirect_stdout(io.StringIO()):
+                s0 = clock.steps
+                try:
+                    project = ProjectFileParser().parse(text)
+                    b["parse_steps"] = clock.steps - s0
+                    b["dates"] = dates_digest(project)
+                    s0 = clock.steps
+                    project.schedule()
+                    b["resched_steps"] = clock.steps - s0
+                    b["dates_after_reschedule"] = dates_digest(project)
+                    nrep = len(list(project.reports))
+                    b["nreports"] = nrep
+                    reps = []
+                    s0 = clock.steps
+                    for k in range(nrep):
+                        try:
+                            reps.append(report_observation(project, k, outdir))
+                        except Exception as e:
+                            reps.append(["exc", type(e).__name__])
+                    b["report_steps"] = (clock.steps - s0) // max(1, nrep)
+                    b["reports"] = reps
+                    b["dates_after_reports"] = dates_digest(project)
+                except SystemExit:
+                    b["exc"] = "SystemExit"
+                    b["parse_steps"] = clock.steps - s0
+                except Exception as e:
+                    b["exc"] = type(e).__name__
+                    b["parse_steps"] = clock.steps - s0
+                try:
+                    b["cli"] = cli_observation(text, workdir, outdir)
+                except SystemExit:
+                    b["cli"] = ["SystemExit"]
+            res["by_clock"][str(ts)] = b
+    finally:
+        clock.uninstall()
+    return res
+
+
+def c12_history(spec: dict) -> dict:
+    """Execute one seeded history of library calls in this (forked) interpreter and compare every
+    observation with the fresh-interpreter baselines."""
+    import errno
+    import gc
+    import random
+    import time
+
+    from .seams import install_datetime_seam
+    from .tape import Tape
+
+    texts = spec["texts"]
+    base = spec["baselines"]  # per text: c12_baseline result
+    clocky = spec["clocky"]  # per text: bool
+    workdir = spec["workdir"]
+    outdir = os.path.join(workdir, "out")
+    os.makedirs(outdir, exist_ok=True)
+    now = {"i": 0}
+    install_datetime_seam(lambda: CLOCKS[now["i"]])
+    os.environ["TZ"] = "UTC"
+    time.tzset()
+    tape = Tape(random.Random(spec["rng_seed"])) if spec.get("tape") is None else Tape(replay=spec["tape"])
+    n_ops = spec["n_ops"]
+    fault_free = spec.get("fault_free", False)
+
+    from scriptplan.parser.tjp_parser import ProjectFileParser
+
+    parser = ProjectFileParser()
+    clock = StepClock()
+    handles: list[dict] = []
+    log: list = []
+    V: list = []
+    stats = {"cancel_armed": 0, "cancel_fired": {}, "io_faults": 0, "clock_jumps": 0, "tz_changes": 0, "observations": 0, "alternations": 0, "ops": {}}
+    last_steps: dict = {}
+    armed = None
+    io_fault = {"on": False, "fired": False}
+    real_open = __import__("builtins").open
+
+    def p_open(file, *a, **kw):
+        if io_fault["on"] and isinstance(file, (str, os.PathLike)) and str(file).startswith(outdir) and (a and any(c in a[0] for c in "wax")):
+            io_fault["on"] = False
+            io_fault["fired"] = True
+            raise OSError(errno.ENOSPC, os.strerror(errno.ENOSPC), str(file))
+        return real_open(file, *a, **kw)
+
+    import builtins
+
+    builtins.open = p_open
+    io.open = p_open
+
+    def bl(ti):
+        key = str(CLOCKS[now["i"]]) if clocky[ti] else str(CLOCKS[0])
+        return base[ti]["by_clock"][key]
+
+    def mismatch(kind, opi, ti, what, got, want):
+        V.append({"oracle": kind, "sig": f"{kind}|{what.split(',')[0]}", "detail": f"op {opi} on text {ti}: {what}: got {json.dumps(got, default=str)[:300]} want {json.dumps(want, default=str)[:300]}", "op": opi})
+
+    last_text = None
+    clock.install()
+    try:
+        for opi in range(n_ops):
+            kinds = ["parse", "parse", "parse_ns", "schedule", "observe", "observe", "report", "report", "cli", "gc"]
+            if not fault_free:
+                kinds += ["cancel", "cancel", "io_fault", "clock", "tz"]
+            k = kinds[tape.draw(len(kinds))]
+            stats["ops"][k] = stats["ops"].get(k, 0) + 1
+            if k == "gc":
+                gc.collect()
+                log.append([opi, k])
+                continue
+            if k == "clock":
+                now["i"] = tape.draw(len(CLOCKS))
+                stats["clock_jumps"] += 1
+                log.append([opi, k, now["i"]])
+                continue
+            if k == "tz":
+                tz = TZS[tape.draw(len(TZS))]
+                os.environ["TZ"] = tz
+                time.tzset()
+                stats["tz_changes"] += 1
+                log.append([opi, k, tz])
+                continue
+            if k == "cancel":
+                armed = {"exc": tape.draw(3), "frac": tape.draw(100)}
+                stats["cancel_armed"] += 1
+                log.append([opi, k, armed["exc"], armed["frac"]])
+                continue
+            if k == "io_fault":
+                io_fault["on"] = True
+                io_fault["fired"] = False
+                stats["io_faults"] += 1
+                log.append([opi, k])
+                continue
+            # ---- ops that run engine code
+            ti = None
+            h = None
+            if k in ("parse", "parse_ns", "cli"):
+                ti = tape.draw(len(texts))
+            else:
+                if not handles:
+                    log.append([opi, k, "no-handle"])
+                    continue
+                h = handles[tape.draw(len(handles))]
+                ti = h["text"]
+            if last_text is not None and ti != last_text:
+                stats["alternations"] += 1
+            last_text = ti
+            B = bl(ti)
+            rk = tape.draw(8) if k == "report" else 0
+            # arm the cancellation inside this op's own step window (nothing of the harness may run
+            # between arming and the operation: the step clock ticks for harness code too)
+            fired_before = clock.fired = False
+            if armed is not None:
+                window = last_steps.get((k, ti)) or {"parse": B.get("parse_steps"), "parse_ns": B.get("parse_steps"), "schedule": B.get("resched_steps"), "report": B.get("report_steps"), "observe": 50, "cli": (B.get("parse_steps") or 0) * 2}.get(k) or 1000
+                s = 1 + int(window * armed["frac"] / 100.0)
+                clock.cancel_at = clock.steps + s
+                clock.cancel_exc = [KeyboardInterrupt(), MemoryError(), OSError(errno.EIO, "injected")][armed["exc"]]
+            s0 = clock.steps
+            outcome = None
+            exc = None
+
+            def do_op():
+                # a frame of its own: whatever the cancellation interrupts - including the context
+                # managers' enter/exit - unwinds into the caller's handler below
+                with _quiet(), contextlib.redirect_stdout(io.StringIO()):
+                    if k == "parse":
+                        p = parser.parse(texts[ti])
+                        hh = {"text": ti, "project": p, "scheduled": True, "poisoned": False, "clock": now["i"]}
+                        handles.append(hh)
+                        return hh, None
+                    if k == "parse_ns":
+                        p = parser.parse(texts[ti], schedule=False)
+                        hh = {"text": ti, "project": p, "scheduled": False, "poisoned": False, "clock": now["i"]}
+                        handles.append(hh)
+                        return hh, None
+                    if k == "schedule":
+                        h["project"].schedule()
+                        h["scheduled"] = True
+                        return h, None
+                    if k == "observe":
+                        return h, dates_digest(h["project"])
+                    if k == "report":
+                        return h, report_observation(h["project"], rk, outdir)
+                    if k == "cli":
+                        return h, cli_observation(texts[ti], workdir, outdir)
+                return h, None
+
+            try:
+                h, outcome = do_op()
+            except BaseException as e:
+                exc = e
+            finally:
+                clock.cancel_at = None
+            fired = clock.fired
+            clock.fired = False
+            was_armed = armed is not None
+            armed = None
+            io_hit = io_fault["fired"]
+            io_fault["on"] = False
+            io_fault["fired"] = False
+            last_steps[(k, ti)] = max(1, clock.steps - s0)
+            log.append([opi, k, ti, type(exc).__name__ if exc else None, "cancel-fired" if fired else ("cancel-missed" if was_armed else None), "io" if io_hit else None])
+            if len(handles) > 6:
+                handles.pop(0)
+            if fired:
+                nm = type(clock.cancel_exc).__name__
+                stats["cancel_fired"][nm] = stats["cancel_fired"].get(nm, 0) + 1
+                if h is not None:
+                    h["poisoned"] = True
+                if k in ("parse", "parse_ns", "cli"):
+                    parser = ProjectFileParser()  # a parser interrupted in mid-parse is not reused either
+                continue
+            if h is not None and h.get("poisoned"):
+                continue
+            # ---- oracles
+            hb = B
+            if h is not None and clocky[ti]:
+                hb = base[ti]["by_clock"][str(CLOCKS[h["clock"]])]
+            if k in ("parse", "parse_ns"):
+                want = hb.get("exc") if k == "parse" or hb.get("exc") not in (None,) else hb.get("exc")
+                got = type(exc).__name__ if exc else None
+                if k == "parse_ns" and want is not None and got is None:
+                    # the baseline may have failed only in schedule(); then parse without scheduling legitimately succeeds
+                    h["maybe_sched_exc"] = want
+                elif got != want:
+                    mismatch("exception-class", opi, ti, f"{k} raised {got}, fresh interpreter raised {want}", got, want)
+                stats["observations"] += 1
+                continue
+            if exc is not None and not io_hit:
+                if k == "schedule" and h.get("maybe_sched_exc") == type(exc).__name__:
+                    h["poisoned"] = True
+                    continue
+                mismatch("exception-class", opi, ti, f"{k} raised {type(exc).__name__} on a handle the fresh interpreter handles without error", type(exc).__name__, None)
+                continue
+            if io_hit:
+                continue  # the write was made to fail; nothing to compare, the handle stays under observation
+            if k == "observe":
+                stats["observations"] += 1
+                if not h["scheduled"]:
+                    continue
+                if outcome != hb.get("dates"):
+                    bad = next(((a, b) for a, b in zip(outcome, hb.get("dates") or []) if a != b), (len(outcome), len(hb.get("dates") or [])))
+                    mismatch("digest", opi, ti, "task dates differ from the fresh-interpreter run", bad[0], bad[1])
+            elif k == "report":
+                stats["observations"] += 1
+                if not h["scheduled"] or "reports" not in hb:
+                    continue
+                if outcome[0] == "no-reports":
+                    continue
+                want = hb["reports"][rk % len(hb["reports"])] if hb["reports"] else None
+                if want is not None and outcome != want:
+                    mismatch("digest", opi, ti, "report differs from the fresh-interpreter run", outcome, want)
+            elif k == "cli":
+                stats["observations"] += 1
+                if outcome != hb.get("cli"):
+                    mismatch("digest", opi, ti, "in-process CLI output differs from the fresh-interpreter run", outcome, hb.get("cli"))
+    finally:
+        clock.uninstall()
+        builtins.open = real_open
+        io.open = real_open
+    return {"viol": V[:5], "log": log, "tape": list(tape.rec), "stats": stats, "steps": clock.steps}
